@@ -253,6 +253,9 @@ partial def loop (inp : IO.FS.Stream) (out : IO.FS.Stream) (st : DState) : IO Un
       | .error e =>
         out.putStrLn s!"res err:{errClass e}"
         loop inp out { st with img := none }
+    | "nop" =>
+      out.putStrLn "nop"
+      loop inp out st
     | "patch" =>
       -- raw byte edits of the file followed by a fresh load (tampering)
       let n := kv.nat "nsites"
